@@ -1,7 +1,7 @@
 (* C11 — Byte input is decoded as streaming UTF-8 (or 1:1 in 8-bit mode). *)
 From Coq Require Import NArith List Bool.
 From MT Require Import Lib Types Tables Screen Parser Utf8 World.
-From MT.Proofs Require Import Stream Utf8Dec.
+From MT.Proofs Require Import Stream Utf8Dec EndToEnd.
 Import ListNotations.
 Open Scope N_scope.
 
@@ -52,6 +52,16 @@ Proof. intros w. repeat split. Qed.
 Example C11_example : drun d0 [0xE3; 0x81; 0x82; 0xFF; 0x41; 0xE3; 0x81] = (mkD 1 193 128 191 false, [0x3042; REPL; 0x41]).
 Proof. vm_compute. reflexivity. Qed.
 
+(* end to end: on the UTF-8 encoding of any string of scalar values, cut into feed() calls anywhere (also inside a
+   character), the byte parser drives recogniser and screen exactly as the character parser does on the string itself *)
+Theorem C11_bytes_behave_as_the_characters : forall wid is_comb nfc w cs chunks,
+  w_utf8 w = true -> w_dec w = mkD 0 0 128 191 false -> Forall scalar cs -> concat chunks = concat (map encode cs) ->
+  fold_left (feed_bytes wid is_comb nfc) chunks w = feed_chars wid is_comb nfc w cs.
+Proof. exact e2e_bytes_chunked. Qed.
+Theorem C11_eight_bit_bytes_are_the_characters : forall wid is_comb nfc w bs, w_utf8 w = false ->
+  feed_bytes wid is_comb nfc w bs = feed_chars wid is_comb nfc w bs.
+Proof. exact e2e_bytes_8bit. Qed.
+
 Print Assumptions C11_well_formed_sequence_decodes.
 Print Assumptions C11_well_formed_iff_encoding.
 Print Assumptions C11_every_scalar_has_a_well_formed_encoding.
@@ -61,3 +71,4 @@ Print Assumptions C11_maximal_subpart.
 Print Assumptions C11_incomplete_tail_is_held.
 Print Assumptions C11_streaming.
 Print Assumptions C11_eight_bit_mode.
+Print Assumptions C11_bytes_behave_as_the_characters.
